@@ -35,7 +35,7 @@ func RecoverImage(img *simfs.FS, cfg Config, keys map[string][]byte, probe []str
 			want = ModelFromDecode(d)
 		}
 	}
-	s := &Sess{FS: img, Cfg: cfg, Keys: keys, Probe: probe, Seed: seed}
+	s := &Sess{FS: img, Cfg: cfg, Keys: keys, Probe: probe, Seed: seed, BaseName: "(image)", quietPanic: true}
 	if o.KeepLog {
 		img.Record = true
 	}
@@ -51,9 +51,17 @@ func RecoverImage(img *simfs.FS, cfg Config, keys map[string][]byte, probe []str
 			r.SizeMsg = fmt.Sprintf("segment %s: in-memory size %d, file length %d", sg.Name, sg.Size, l)
 		}
 	}
-	all, err := ReadAll(s.DB)
-	if err != nil {
-		r.Internal = err.Error()
+	var all Model
+	if perr := s.protect("reading the recovered database", func() error {
+		var err error
+		all, err = ReadAll(s.DB)
+		if err != nil {
+			r.Internal = err.Error()
+			all = Model{}
+		}
+		return nil
+	}); perr != nil {
+		r.Internal = perr.Error()
 		all = Model{}
 	}
 	r.Contents = all
